@@ -31,6 +31,9 @@ type Network struct {
 	// history of binds/unbinds for observations
 	Log              []string
 	acceptingWaiters []*vsched.Thread
+	gateN, gateSeen  int
+	gateQ            []*vsched.Thread
+	gateOwner        *vsched.Thread
 }
 
 type listener struct {
@@ -50,6 +53,18 @@ type Conn struct {
 	State    string // queued | active | complete | refused | reset | aborted
 	waiter   *vsched.Thread
 	Panicked any
+	// ground truth at the instants the handler was entered and left (per server address):
+	// connections inside a handler and handlers that have returned
+	Before, After map[string][2]int
+}
+
+// Snapshot returns, per server address, {connections currently being served, handlers that have returned}.
+func (n *Network) Snapshot() map[string][2]int {
+	m := map[string][2]int{}
+	for _, s := range n.servers {
+		m[s.Addr] = [2]int{len(s.active), s.completed}
+	}
+	return m
 }
 
 var nets = map[*vsched.Sched]*Network{}
@@ -121,6 +136,39 @@ func (n *Network) state() string {
 	return strings.Join(parts, ";")
 }
 
+// HoldConns makes accepted connections wait at the handler's door; AwaitHeld blocks
+// the caller until k connections are waiting there and then opens the door. Harnesses
+// use the pair so that every handler thread exists before the interleavings between
+// them are explored (the caller then blocks and the lowest-named handler runs first).
+func (n *Network) HoldConns(k int) { n.gateN, n.gateSeen = k, 0 }
+
+func (n *Network) AwaitHeld() {
+	t := vsched.Current()
+	for n.gateSeen < n.gateN {
+		n.gateOwner = t
+		t.Block("all connections accepted")
+	}
+	n.gateN = 0
+	for _, w := range n.gateQ {
+		w.Unblock()
+	}
+	n.gateQ = nil
+}
+
+func (n *Network) gate(t *vsched.Thread) {
+	if n.gateN == 0 {
+		return
+	}
+	n.gateSeen++
+	if n.gateSeen >= n.gateN && n.gateOwner != nil {
+		n.gateOwner.Unblock()
+	}
+	for n.gateN != 0 {
+		n.gateQ = append(n.gateQ, t)
+		t.Block("door opened")
+	}
+}
+
 // Bound reports whether an address is currently bound (what a fresh net.Listen would trip over).
 func (n *Network) Bound(addr string) bool { _, ok := n.bound[addr]; return ok }
 
@@ -172,6 +220,7 @@ type Server struct {
 	active        map[*Conn]bool
 	idleWaiters   []*vsched.Thread
 	registered    bool
+	completed     int
 }
 
 func (srv *Server) init() {
@@ -265,6 +314,8 @@ func (srv *Server) serve(c *Conn) {
 			c.State = "complete"
 		}
 		delete(srv.active, c)
+		srv.completed++
+		c.After = Net().Snapshot()
 		if c.waiter != nil {
 			c.waiter.Unblock()
 		}
@@ -275,7 +326,26 @@ func (srv *Server) serve(c *Conn) {
 			srv.idleWaiters = nil
 		}
 	}()
+	Net().gate(vsched.Current())
+	c.Before = Net().Snapshot()
 	srv.Handler.ServeHTTP(c.Rec, c.Req)
+	// the response is part of the state: fold it into this thread's history
+	vsched.Current().Note(fmt.Sprintf("resp:%d:%s", c.Rec.Code, digestBody(c.Rec.Body.Bytes())))
+}
+
+// digestBody: the whole body, except for Prometheus expositions where only the
+// request-metric lines count (runtime/process collectors vary from run to run).
+func digestBody(b []byte) string {
+	if !bytes.HasPrefix(b, []byte("# HELP")) {
+		return string(b)
+	}
+	var keep []string
+	for _, line := range strings.Split(string(b), "\n") {
+		if strings.Contains(line, "endpoint_pattern") && !strings.Contains(line, "_seconds") && !strings.Contains(line, "_bytes") {
+			keep = append(keep, line)
+		}
+	}
+	return strings.Join(keep, "|")
 }
 
 func (srv *Server) Shutdown(ctx context.Context) error {
@@ -326,6 +396,7 @@ func (srv *Server) RegisterOnShutdown(f func()) {}
 // ---- clients ---------------------------------------------------------------------
 
 type Response struct {
+	Before, After map[string][2]int
 	Outcome string // refused | reset | aborted | complete
 	Status  int
 	Header  http.Header
@@ -353,7 +424,7 @@ func Do(client, addr, method, path string, body []byte) *Response {
 	for c.State == "queued" || c.State == "active" {
 		t.Block("response for " + client)
 	}
-	res := &Response{Outcome: c.State}
+	res := &Response{Outcome: c.State, Before: c.Before, After: c.After}
 	if c.State == "complete" {
 		r := c.Rec.Result()
 		res.Status = r.StatusCode
